@@ -1,7 +1,7 @@
 //! Helpers to deserialize untrusted bytes without trusting the lengths they
 //! announce.
 
-use cosmian_crypto_core::bytes_ser_de::Deserializer;
+use cosmian_crypto_core::bytes_ser_de::{to_leb128_len, Deserializer};
 
 use crate::Error;
 
@@ -16,4 +16,20 @@ pub(crate) fn read_vec(de: &mut Deserializer) -> Result<Vec<u8>, Error> {
         )));
     }
     de.read_vec().map_err(Error::from)
+}
+
+/// Reads a LEB128-encoded integer, only accepting the encoding the serializer
+/// produces (the shortest one): continuation bytes can otherwise be inserted
+/// into a serialized object without changing the object it deserializes to.
+pub(crate) fn read_canonical_leb128_u64(de: &mut Deserializer) -> Result<u64, Error> {
+    let available = de.value().len();
+    let value = de.read_leb128_u64()?;
+    let consumed = available - de.value().len();
+    let expected = usize::try_from(value).map_or(consumed, to_leb128_len);
+    if consumed != expected {
+        return Err(Error::ConversionFailed(format!(
+            "non-canonical LEB128 encoding of {value}: {consumed} bytes instead of {expected}"
+        )));
+    }
+    Ok(value)
 }
